@@ -10,7 +10,16 @@ fn gen_leaf_type(r: &mut Rng) -> DataType {
         19 => { let p = 1 + r.below(38) as u8; DataType::Decimal128(p, r.below(p as usize + 1) as i8) }
         20 => DataType::Date32,
         21 => DataType::Timestamp(unit_of(r.below(4) as i64), match r.below(4) { 0 => None, k => Some(TZS[k - 1].into()) }),
-        22 | 23 => DataType::Dictionary(Box::new(DataType::Int32), Box::new(DataType::Utf8)),
+        22 => DataType::Dictionary(Box::new(DataType::Int32), Box::new(DataType::Utf8)),
+        23 => match r.below(7) {
+            0 => DataType::Dictionary(Box::new(DataType::Int8), Box::new(DataType::Utf8)),
+            1 => DataType::Dictionary(Box::new(DataType::UInt16), Box::new(DataType::LargeUtf8)),
+            2 => DataType::Dictionary(Box::new(DataType::Int32), Box::new(DataType::Int64)),
+            3 => DataType::Dictionary(Box::new(DataType::Int32), Box::new(DataType::Binary)),
+            4 => DataType::Dictionary(Box::new(DataType::Int32), Box::new(DataType::Float64)),
+            5 => DataType::Dictionary(Box::new(DataType::Int8), Box::new(DataType::Int32)),
+            _ => DataType::Dictionary(Box::new(DataType::Int32), Box::new(DataType::Utf8)),
+        },
         24 => DataType::Float16,
         25 => { let p = 1 + r.below(76) as u8; DataType::Decimal256(p, r.below(p as usize + 1) as i8) }
         26 => if r.bool() { DataType::Time32(unit_of(r.below(2) as i64)) } else { DataType::Time64(unit_of(2 + r.below(2) as i64)) },
